@@ -232,6 +232,13 @@ def m_write_data(eng, n, st, func, want):
                                 j, norm(d, sa), t + j, '; '.join(sa.trail[-6:]))
                 eng.obligations.append(Obligation(eng.root, 'stream', 'the sink receives the appended bytes in order, '
                                                   'none lost, none twice', bad is None, func.loc(n), bad or ''))
+                # a sink may refuse the bytes: the exception leaves the call before anything was consumed
+                refused = s1.copy()
+                refused.status = 'throw'
+                refused.thrown = 'sink'
+                refused.fields[('ghost', 'sink_refused')] = lin(1)
+                refused.trail.append('the sink refuses the bytes (exception)')
+                out.append((UNKNOWN, refused))
                 s1.fields[('ghost', 'sunk')] = t + ln
         out.append((UNKNOWN, s1))
     return out
@@ -396,6 +403,7 @@ def run(chk):
     chk.rule('O1', 'bounds obligations and class invariants (Engine C)', 20)
     chk.rule('O4', 'byte-stream fidelity: in-order, exactly-once delivery proved by content invariants', 60)
     chk.rule('O5', 'read requests are refused exactly when they are larger than the buffer', 8)
+    chk.rule('O6', 'a sink that throws loses nothing: buffered bytes stay buffered (invariants at the exceptional exit)', 4)
     eng = make_engine(prog)
     targets = [f for f in prog.functions if (f.classq or '') in ('celma::common::ReadBuffer', 'celma::common::WriteBuffer')
                and f.short in ('get', 'append', 'flush', 'buffered')]     # fillBuffer is private: analysed inlined
@@ -433,8 +441,20 @@ def run(chk):
                         f.name, 'refuse', 'a read request larger than the buffer is refused', held, f.loc(),
                         '' if held else 'a normal return is reachable with len > %s; path [%s]' % (
                             N, '; '.join(s_.trail[-6:]))))
+        if f.short in ('append', 'flush') and 'WriteBuffer' in (f.classq or ''):
+            # a sink that throws consumes nothing: what was buffered is still buffered afterwards (it reaches the sink
+            # with the next flush) - the class and content invariants hold at the exceptional exit as well
+            for s_ in finals:
+                if s_.status == 'throw' and s_.fields.get(('ghost', 'sink_refused')) is not None:
+                    mark = len(eng.obligations)
+                    # an append() that ends in the exception has not accepted its block
+                    if ('ghost', 'append_len') in s_.fields:
+                        s_.fields[('ghost', 'append_len')] = lin(0)
+                    eng.check_invariants(s_, f, None, 'when the sink refuses the bytes (exception)')
+                    for o in eng.obligations[mark:]:
+                        o.kind = 'refused'
         for o in eng.obligations[before:]:
-            rule = 'O4' if o.kind == 'stream' else 'O5' if o.kind == 'refuse' else 'O1'
+            rule = 'O4' if o.kind == 'stream' else 'O5' if o.kind == 'refuse' else 'O6' if o.kind == 'refused' else 'O1'
             chk.check(o.held, rule, f.name, '%s [%s]' % (o.what, tag), o.where, o.detail)
     if eng.unsupported:
         chk.notes.append('constructs evaluated as opaque: %s' % sorted(set(eng.unsupported))[:10])
